@@ -1,9 +1,66 @@
 """C14 -- arbitrary line noise causes only protocol errors and bounded loss."""
 from __future__ import annotations
 
+import asyncio
+
 from harness import frames_gen as G
 from harness import model, reader_impl
 from harness.common import Prop
+
+
+def _piece(rng, what):
+    """one whole, frame-shaped piece of line noise that the reader answers with the given class of outcome"""
+    payload = bytes(b if b != 0x68 else 0x67 for b in G.rand_payload(rng, rng.choice([0, 2, 7])))
+    if what == "checksum":
+        fb = bytearray(G.enc(rng.choice([0x30, 0x40, 0xB9]), rng.choice([0x56, 0x00]), rng.choice([0x45, 0x51, 0x56, 0x00]), 48, 5, payload))
+        fb[-2] ^= rng.randrange(1, 256)
+        if fb[-2] == 0x68:
+            fb[-2] ^= 1
+        return bytes(fb)
+    if what == "unknown-sender":
+        return G.enc(0x30, 0x56, rng.choice([0x10, 0x33, 0x99]), 48, 5, payload)
+    if what == "unknown-kind":
+        return G.enc(rng.choice([0x99, 0x01, 0xEE]), 0x56, 0x45, 48, 5, payload)
+    if what == "foreign":
+        return G.enc(0x31, 0x45, 0x56, 48, 5, payload)
+    if what == "short-length":
+        return bytes([0x68, rng.choice([0, 3, 9]), 0, 0x56, 0x45, 48, 5])
+    if what == "long-length":
+        return bytes([0x68, 0xE9, 0x03, 0x56, 0x45, 48, 5])
+    return bytes(b if b != 0x68 else 0x67 for b in G.rand_payload(rng, rng.randrange(1, 30)))        # "garbage": no delimiter at all
+
+
+PIECES = ["checksum", "unknown-sender", "unknown-kind", "foreign", "short-length", "long-length", "garbage"]
+
+
+async def _producer_session(noise, frame, k, consumers):
+    """the real AsyncProtocol (its producer and consumer tasks) reading noise ++ k copies of a valid frame"""
+    from pyplumio.protocol import AsyncProtocol
+    from harness import proto_impl as PI
+    rec = PI.Recorder()
+    rec.install()
+    try:
+        proto = AsyncProtocol(consumers_count=consumers)
+        reader = asyncio.StreamReader()
+        writer = PI.FakeWriter()
+        proto.connection_established(reader, writer)
+        await PI.settle()
+        reader.feed_data(noise)
+        for _ in range(30):
+            await PI.settle()
+        reader.feed_data(frame * k)
+        for _ in range(30 + 4 * k):
+            await PI.settle()
+        producer = len([t for t in proto.tasks if "frame_producer" in t.get_name() and not t.done()])
+        res = {"producer_alive": producer, "delivered": len(rec.calls), "unread": len(reader._buffer),
+               "connected": proto.connected.is_set()}
+        try:
+            await asyncio.wait_for(proto.shutdown(), timeout=600)
+        except asyncio.TimeoutError:
+            res["shutdown"] = False
+        return res
+    finally:
+        rec.uninstall()
 
 
 class C14(Prop):
@@ -13,7 +70,9 @@ class C14(Prop):
             "k >= 2 + 1000/|frame| identical valid frames of a random kind; per call: outcome class and bytes consumed; resynchronisation: "
             "index of first delivery against |noise| + 1000 + |frame|; plus every type byte 0..255 in a valid, correctly addressed envelope.  Non-trivial = the model reports at least one protocol error; "
             "distinct by stream bytes.")
-    assumptions = ["the producer loop surviving protocol errors is exercised by the C09 check on the real AsyncProtocol",
+    assumptions = ["the producer loop surviving protocol errors: `producer` sessions (whole frame-shaped pieces of every error class -- wrong "
+                   "checksum, unknown sender, unknown kind, foreign recipient, short / long length field, delimiter-free garbage -- then a run of "
+                   "valid frames) through the real AsyncProtocol here, and undecodable payloads under C09",
                    "the 10 s read timeout is a fault event of C11, not part of this model"]
 
     def generate(self, rng, tier):
@@ -76,12 +135,18 @@ class C14(Prop):
         return s
 
     def run_impl(self, case):
+        if case.get("kind") == "producer":
+            return self._producer_run(case)
         return reader_impl.read_all(self._stream(case))
 
     def model_many(self, cases):
+        if cases and all(c.get("kind") == "producer" for c in cases):
+            return [None] * len(cases)
         return model.call_many("read_all", [self._stream(c) for c in cases])
 
     def spec_many(self, cases, behaviours):
+        if cases and all(c.get("kind") == "producer" for c in cases):
+            return [self._producer_ok(c, b) for c, b in zip(cases, behaviours)]
         a14, ars, idx = [], [], []
         bad = []
         for i, (c, b) in enumerate(zip(cases, behaviours)):
@@ -101,7 +166,41 @@ class C14(Prop):
                 self._resync_fail.add(i)
         return res
 
+    def extra_checks(self, tier, rng):
+        """`the connection's producer loop keeps running`: whole frame-shaped pieces of every error class, then a run of valid frames,
+        through the producer / consumer tasks of the real AsyncProtocol"""
+        from harness import proto_impl as PI, vloop
+        kind, payload = PI.captured()["sensor"]
+        frame = G.enc(kind, 0x56, 0x45, 48, 5, payload)
+        fails = []
+        self._producer_sessions = 0
+        plans = [[p] for p in PIECES] + [[rng.choice(PIECES) for _ in range(rng.randrange(1, 8))] for _ in range(40 if tier == "quick" else 800)]
+        for plan in plans:
+            noise = b"".join(_piece(rng, p) for p in plan)
+            k = rng.choice([1, 2, 5])
+            c = {"kind": "producer", "plan": plan, "noise": list(noise), "k": k, "consumers": rng.choice([1, 2, 3])}
+            b = self._producer_run(c)
+            self._producer_sessions += 1
+            if not self._producer_ok(c, b):
+                fails.append({"case": c, "impl": b, "reason": "after frame-shaped line noise the producer loop is not running any more, or the run of "
+                              "valid frames behind the noise was not delivered"})
+        return fails
+
+    def _producer_run(self, c):
+        from harness import proto_impl as PI, vloop
+        kind, payload = PI.captured()["sensor"]
+        return vloop.run(_producer_session, bytes(c["noise"]), G.enc(kind, 0x56, 0x45, 48, 5, payload), c["k"], c["consumers"])
+
+    @staticmethod
+    def _producer_ok(c, b):
+        return b["producer_alive"] == 1 and b["connected"] and b["delivered"] == c["k"] and b["unread"] == 0 and b.get("shutdown", True)
+
+    def extra_coverage(self):
+        return {"producer_sessions": getattr(self, "_producer_sessions", 0)}
+
     def known_match(self, entry, case, ib):
+        if case.get("kind") == "producer":
+            return False
         # D16: resynchronisation fails for frames whose bytes after the start delimiter contain another 0x68
         if entry["id"] == "D16" and case.get("f") is not None and 0x68 in self._tail(case["f"]):
             # only the resync clause is covered by the finding: the per-call clauses must still hold
